@@ -305,6 +305,35 @@ def c20_tree(prop, key, index, tier):
     one_line = index % 3 == 0
     top, info = build_tree(rng, ALPHABET_ONE_LINE if one_line else ALPHABET)
     out.count('trees exported')
+    if index % 2 == 1 and len(info['atoms']) >= 2:
+        # history: the tree is exported / listed once while some of its jobs
+        # are still missing, then completed; the final export must describe
+        # the final tree (nothing remembered from the earlier numbering)
+        held = rng.sample(info['atoms'], rng.randint(1, max(1, len(info['atoms']) // 2)))
+        saved = []
+        for a in held:
+            parent = info['parent'][a]
+            requirers = [j for j in parent.jobs if a in j.required]
+            saved.append((a, parent, set(a.required), requirers))
+        for a, parent, reqs, requirers in saved:
+            parent.jobs.discard(a)
+            for j in requirers:
+                j.required.discard(a)
+            a.required.clear()
+        buf = io.StringIO()
+        try:
+            with contextlib.redirect_stdout(buf):
+                top.dot_format()
+                top.list()
+        except ValueError:
+            pass                                        # D7 on the partial tree: not what is judged here
+        for a, parent, reqs, requirers in saved:
+            parent.add(a)
+        for a, parent, reqs, requirers in saved:
+            a.required.update(reqs)
+            for j in requirers:
+                j.required.add(a)
+        out.count('trees exported once before being completed (history)')
     if info['empties']:
         out.count('trees with an empty nested scheduler')
     try:
